@@ -421,6 +421,7 @@ func Generate(seed uint64, profile string, faults bool) *Scenario {
 	rich := false
 	shutdowns := 0
 	gracefulOnly := false
+	raise := false // one of the reload variants is the initial definitions with every concurrency limit raised
 	mix := map[string]int{"schedule": 10, "cancel": 3, "read": 1, "list": 1}
 
 	switch profile {
@@ -545,8 +546,10 @@ func Generate(seed uint64, profile string, faults bool) *Scenario {
 			// a reload that raises a concurrency limit leaves a free slot next to a non-empty wait list until the next
 			// job event: a shutdown that meets that state must still start none of the waiting jobs
 			mix["reload"] = 2
-			o.concChoices = []int{1, 1, 2, 3}
+			o.concChoices = []int{1, 1, 1, 2}
 			o.qlChoices = []int{-1, -1, 3, 5}
+			o.delayPermille = 50
+			raise = true
 		}
 	case "C12":
 		cfg.Store = "mem"
@@ -616,6 +619,13 @@ func Generate(seed uint64, profile string, faults bool) *Scenario {
 		for v := 0; v < nv; v++ {
 			sc.Defs = append(sc.Defs, g.mutateDefs(sc.Defs[g.n(len(sc.Defs))], o, profile))
 		}
+		if raise {
+			nd := cloneDefSet(ds)
+			for i := range nd.Pipelines {
+				nd.Pipelines[i].Concurrency += 1 + g.n(2)
+			}
+			sc.Defs = append(sc.Defs, nd)
+		}
 	}
 
 	// client programmes
@@ -662,6 +672,9 @@ func Generate(seed uint64, profile string, faults bool) *Scenario {
 				op.Job = 1 + g.n(scheduled+2)
 			case "reload":
 				op.Defs = g.n(len(sc.Defs))
+				if raise && g.p(600) {
+					op.Defs = len(sc.Defs) - 1
+				}
 			case "http":
 				genAuthOp(g, &op, scheduled)
 				if len(prevAuth) > 0 && g.p(350) {
